@@ -484,6 +484,28 @@ theorem history_matters_if_record_is_shared :
 example : (runCall codeOrigin.perCall true [.read, .set .req, .read, .set .res, .read] .plain).1 = [.plain, .req, .res] := by
   decide +kernel
 
+/-- **F-C04-8 (open), class `ExclExampleModeLeaks`.** With options one settings record serves the whole run, so the response
+reading set by `components.responses.R` is still there when the parameter example of `/p` is checked (`seen_all_res`): the
+conforming document is rejected (`writeOnly property in response`) although the same call without options accepts it and
+the property accepts it; the twin whose example lacks the required writeOnly property is accepted although it violates
+its schema. `conforming_accepted` / `violation_rejected_partial` speak about calls without options and about documents
+without object examples; inside this class the differential run reports KNOWN-FINDING. -/
+theorem witness_example_mode_leaks :
+    leakClass true {} (W.dLeak (.obj ["id", "pw"])) = true ∧
+    validateRes codeTable {} (W.dLeak (.obj ["id", "pw"])) = false ∧
+    validate codeTable {} (W.dLeak (.obj ["id", "pw"])) = true ∧ specVerdict {} (W.dLeak (.obj ["id", "pw"])) = .accept ∧
+    validateRes codeTable {} (W.dLeak (.obj ["id"])) = true ∧ specVerdict {} (W.dLeak (.obj ["id"])) = .reject ∧
+    leakClass false {} (W.dLeak (.obj ["id", "pw"])) = false ∧ leakClass true { exDisabled := true } (W.dLeak (.obj ["id", "pw"])) = false := by
+  decide +kernel
+
+/-- inside the class every run is one whose `set`s are all the response reading, and such a run shows its example checks
+that reading only -/
+theorem leak_class_reading (evs : List Ev) (h : ∀ e ∈ evs, e = .read ∨ e = .set .res) :
+    ∀ m ∈ (runCall codeOrigin.perCall true (.set .res :: evs) .plain).1, m = Mode.res := by
+  intro m hm
+  simp only [runCall, if_true, seen] at hm
+  exact seen_all_res evs h m hm
+
 /-! ### Witnesses: inside each exclusion class the code deviates (kernel-checked, replayed from corpus/C04) -/
 
 /-- #7: `/r/{n}` with path parameter `m` is accepted, the property rejects it -/
